@@ -33,6 +33,7 @@ def dispatch (line : String) : String :=
       if op.startsWith "ub." then Driver.C01.handle (op.drop 3).toString args
       else if op.startsWith "s." then Driver.C02.handle (op.drop 2).toString args
       else if op == "chain" then Driver.C10.handle args
+      else if op == "calls" || op == "hostile" then Driver.C10.handleCalls op args
       else if op == "pm" then Driver.C18.handle args
       else if op == "pm.compile" then Driver.C18.handleCompile args
       else if op.startsWith "it." then Driver.C08.handle (op.drop 3).toString args
